@@ -72,7 +72,8 @@ def run_case(ctx, g, rng):
                 call(c.add_prefix, r.prefix, r.uri_prefix, list(r.psyn), list(r.usyn))
     else:
         c, how = gen.build(api, recs, d, rng)
-    ghost_u, ghost_p = [], []
+    # strings registered on the *original* of a copied converter after the copy was taken (gen._circumstance): ghosts too
+    ghost_u, ghost_p = [gen.ORIG_URI], ([gen.ORIG_PREFIX] if d not in gen.ORIG_PREFIX else [])
     if g % 3 != 0 and recs:
         # registrations that must be rejected (clash in a late field); afterwards their strings are ghosts that
         # must neither compress nor expand - asked through the same round-trip relations below
